@@ -71,11 +71,24 @@ func (s *state) try(kind string, data []byte, origin string) {
 		return
 	}
 	s.seen[key] = true
+	res, alloc := s.r.call(kind, data)
 	if kind == "csv" && unsupportedCSV(data) {
-		s.c.Stat("c16.skipped.csv_quoted_field", 1)
+		// quoted fields are outside the modelled subset of encoding/csv: no data comparison, but the real
+		// decoder must still neither panic, hang, crash nor over-allocate on them
+		s.c.Stat("c16.csv_quoted_field.robustness_only", 1)
+		class := res
+		if i := strings.IndexAny(class, " :"); i >= 0 {
+			class = class[:i]
+		}
+		switch {
+		case class == "panic" || class == "timeout" || class == "crash":
+			s.c.PropFail("c16:csv/"+class, fmt.Sprintf("%s on %s input %s (csv, quoted field)", res, origin, codec.HexBytes(data)))
+		case alloc > allocBound(len(data)):
+			s.c.PropFail("c16:csv/over-allocation", fmt.Sprintf("allocated %d bytes for %d input bytes (bound %d) on %s input %s (csv, quoted field)",
+				alloc, len(data), allocBound(len(data)), origin, codec.HexBytes(data)))
+		}
 		return
 	}
-	res, alloc := s.r.call(kind, data)
 	tb := codec.NewTables()
 	if kind != "plyh" {
 		tb.AddFileTokens(data, kind == "csv")
@@ -152,6 +165,11 @@ func run(c *hlib.Ctx) {
 			s.tryAll(sm, m, "corruption")
 		}
 	}
+	// long lists (more genuine entries than the bounded pre-allocation holds) and the capacity ledger
+	thorough := c.N >= 1000
+	s.longLists(thorough)
+	s.capLedger(thorough)
+	s.longHeaders(thorough)
 	// grammar-aware random stream
 	for i := 0; i < c.N*4; i++ {
 		sm := randomStream(c.Rng)
